@@ -153,6 +153,8 @@ MUTANTS += [
     ("i2-serial-eof-returns", I, "            raise ConnectionError(\"Serial connection closed\")", "            return", ["C13"]),
     ("i2-reconnect-before-status", I, "                await self._update_state(State.DISCONNECTED)\n                asyncio.create_task(self.connect())\n        self.logger.info(\"Received loop terminated\")", "                asyncio.create_task(self.connect())\n                await self._update_state(State.DISCONNECTED)\n        self.logger.info(\"Received loop terminated\")", ["C13", "C14"]),
     ("i2-close-state-late", I, "        await self._update_state(State.CLOSED)\n        if self.writer:\n            self.writer.close()", "        if self.writer:\n            self.writer.close()\n        await self._update_state(State.CLOSED)", ["C14"]),
+    ("i3-serial-cfg-port-leak", I, "        except Exception:\n            # The attempt fails and is retried (or given up after close()): release the port that was just\n            # opened, nothing else ever closes it.\n            self.writer.close()\n            raise", "        except Exception:\n            raise", ["C14"]),
+    ("i3-serial-cfg-swallowed", I, "            self.writer.close()\n            raise\n        self.logger.info(f\"Sent config packet", "            self.writer.close()\n            return\n        self.logger.info(f\"Sent config packet", ["C13"]),
     ("m2-fromjson-fields", M, "        msg.fields = [NMEA2000Field(**field) for field in data.get(\"fields\", [])]", "        msg.fields = [NMEA2000Field(**field) for field in data.get(\"fields\", [])][:32]", ["C15"]),
 ]
 
